@@ -17,7 +17,9 @@ func (c zzGetCb) OnComplete(err error)              { c.done <- err }
 // ZZLinear (C02): a serving leader with RF 3 and a symbolic client / replication history of `steps`
 // steps over one key: issue the next write (value = its offset), follower f1 or f2 acknowledges its
 // next offset (the harness plays the follower cursor through the REAL cursor acker of the real quorum
-// tracker), or a client reads through the public Read path — optionally overlapping with an acknowledgement. The history must be explained by ONE
+// tracker), a client reads through the public Read path — optionally overlapping with an acknowledgement —
+// or the client of the latest write goes away (its context ends before or after the write was issued: the
+// write is logged, committed and applied all the same). The history must be explained by ONE
 // sequential order — the log order: a write is acknowledged only once a quorum (leader + one follower)
 // stores it; a read returns the state after some write r with (last write acknowledged before the read
 // began) <= r <= (quorum commit point when it returned), never an uncommitted write; reads are monotonic;
@@ -33,6 +35,7 @@ func ZZLinear(steps int) {
 	const maxW = 4
 	var ok, bad [maxW + 1]int
 	var res [maxW + 1]*proto.WriteResponse
+	var cancels [maxW + 1]context.CancelFunc
 	written := int64(0) // offsets 1..written hold the writes
 	acked := []int64{0, 0}
 	lastRead := int64(0)
@@ -52,12 +55,21 @@ func ZZLinear(steps int) {
 		return h
 	}
 	for s := 0; s < steps; s++ {
-		switch vChoice("op", 4) {
+		switch vChoice("op", 5) {
+		case 4:
+			// the client of the latest write goes away (stream closed, deadline): the leader must not care
+			vAssume(written > 0)
+			cancels[written]()
 		case 0:
 			vAssume(written < maxW)
 			written++
 			i := written
-			lc.Write(context.Background(), &proto.WriteRequest{Puts: []*proto.PutRequest{{Key: "k", Value: []byte{byte(i)}}}}, zzWCb{&ok[i], &bad[i], &res[i]})
+			ctx, cancel := context.WithCancel(context.Background())
+			cancels[i] = cancel
+			if vBool("client-already-gone") {
+				cancel()
+			}
+			lc.Write(ctx, &proto.WriteRequest{Puts: []*proto.PutRequest{{Key: "k", Value: []byte{byte(i)}}}}, zzWCb{&ok[i], &bad[i], &res[i]})
 			vAssert("write-is-logged-at-the-next-offset", w.lastAppended == i)
 		case 1, 2:
 			f := 0
